@@ -192,7 +192,20 @@ def pool() -> mp.pool.Pool:
     if _POOL is None:
         n = int(os.environ.get("VERIF_JOBS", "0")) or min(16, os.cpu_count() or 4)
         _POOL = mp.get_context("fork").Pool(n)
+        import atexit
+        atexit.register(_shutdown_pool)
     return _POOL
+
+
+def _shutdown_pool() -> None:
+    global _POOL
+    if _POOL is not None:
+        try:
+            _POOL.terminate()
+            _POOL.join()
+        except Exception:
+            pass
+        _POOL = None
 
 
 def solve_all(vcs: List[VC], axioms: List[z3.BoolRef], thorough: bool = False, parallel: bool = True, light_from: Optional[int] = None) -> List[Result]:
